@@ -8,7 +8,7 @@ LEAN_MODULES = ["LunaVerif.Props.C56", "LunaVerif.Props.C56Stream", "LunaVerif.P
                 "LunaVerif.Lemmas.C56StreamAny", "LunaVerif.Props.C56Uart", "LunaVerif.Props.C56Cdc",
                 "LunaVerif.Props.C56SpiBits", "LunaVerif.Lemmas.C56UartRank", "LunaVerif.Props.C56UartLive",
                 "LunaVerif.Props.C56UartMulti", "LunaVerif.Props.C56SpiProgress", "LunaVerif.Props.C56StreamLive",
-                "LunaVerif.Props.C56UartChain", "LunaVerif.Props.C56SpiPins", "LunaVerif.Props.C56StreamChain", "LunaVerif.Props.C56SpiChain"]
+                "LunaVerif.Props.C56UartChain", "LunaVerif.Props.C56SpiPins", "LunaVerif.Props.C56StreamChain", "LunaVerif.Props.C56SpiChain", "LunaVerif.Props.C56ChainAll"]
 DRIVER = "Driver/C56.lean"
 REQUIRED_THEOREMS = ["captures_depth_consecutive_samples", "readback_nth", "trigger_during_capture_ignored",
                      "pretrigger_delay", "stream_readout_exact", "stream_readout_complete",
@@ -25,7 +25,9 @@ REQUIRED_THEOREMS = ["captures_depth_consecutive_samples", "readback_nth", "trig
                      "stream_capture_chain_open", "stream_capture_nth", "stream_capture_chain_total", "cdc_capture_chain",
                      "cdc_capture_chain_complete", "cdc_capture_chain_open", "cdc_output_prefix", "cdc_chain_output_prefix",
                      "quiet_run", "capture_holds", "window_words", "window_bits", "window_pins", "rounds_idle",
-                     "spi_capture_chain_words", "spi_capture_chain_bits", "spi_capture_chain_pins", "stale_window_example"]
+                     "spi_capture_chain_words", "spi_capture_chain_bits", "spi_capture_chain_pins", "stale_window_example",
+                     "spi_history_decomposes", "spi_history_pins", "stream_history_decomposes", "stream_history_frames",
+                     "cdc_history_frames"]
 RULE = ("cases = (sample_depth in {1,2,5,32,100} (+3,4,7,8,16,33 thorough), samples_pretrigger 0..3, domain sync/usb, "
         "three captured signals of 1+8+5 bits) x pattern: triggers sparse / held high / bursts / random incl. during "
         "capture; inputs random every cycle or a counter; captured_sample_number sweeps and random reads, also while "
@@ -131,7 +133,9 @@ PARTIAL = ("the IntegratedLogicAnalyzer core and all three read-out wrappers are
            "read-out, so every buffer is sent completely, in order, before the next capture can start: the read-out of "
            "capture k is exactly capture k's frame); spi_capture_chain_words / _bits / _pins (SyncSerialILA: in the round of "
            "capture k, every chip-select window preceded by four chip-select-low cycles - first read-out, re-read, read-out "
-           "after a partial or aborted one - returns capture k's samples, never capture k-1's). Not covered, by design of the "
+           "after a partial or aborted one - returns capture k's samples, never capture k-1's). The cut is no restriction: "
+           "EVERY history decomposes that way (spi_history_decomposes, stream_history_decomposes), so stream_history_frames / "
+           "cdc_history_frames / spi_history_pins speak about any history from an idle state. Not covered, by design of the "
            "code and stated exactly: the SyncSerialILA does not block triggers during a read-out, so a window (or its four "
            "lead-in cycles) that overlaps a capture reads the memory while it is overwritten and returns a mixture of the "
            "old and the new capture (stale_window_example: a word latched before the trigger is still shifted out after "
